@@ -480,8 +480,133 @@ static void profile_history_sweep(RunCtx& ctx)
     }
 }
 
+/** Family "clockreal": validates the stub "assign UTAP::tracker.position" against reality. The process really parses
+ *  whitespace (one token per buffer, so the counter advances by the buffer length) until the position clock stands at
+ *  T, then runs probe calls; a twin forked while pristine jumps to T and runs the same probes. Both must agree, or
+ *  the clock jumps used everywhere else would be a stub that lies (reported as a HARNESS defect, never as a verdict). */
+static void profile_history_clockreal(RunCtx& ctx)
+{
+    Rng rng{ctx.run_seed};
+    uint64_t T;
+    if (ctx.thorough && rng.chance(0.35))
+        T = (1ull << 31) - 1 - rng.below(3000);  // the probes cross 2^31 (and the "unknown position" sentinel)
+    else
+        T = (1ull << rng.range(16, ctx.thorough ? 28 : 25)) + rng.below(1000);
+    const int nprobes = rng.range(2, 4);
+    std::vector<HOp> probes;
+    for (int i = 0; i < nprobes; ++i) {
+        probes.push_back(make_load(ctx, rng, i));
+        probes.back().call.alloc_fail_at = -1;
+        probes.back().call.ceiling = 0;
+    }
+    ctx.step(0, "plan");
+    if (UTAP::tracker.position != 0) {
+        ctx.violation("HARNESS", "not-pristine", "not-pristine", "the run process parsed something before forking its references");
+        return;
+    }
+    // the jumped twin
+    std::vector<std::string> twin;
+    {
+        int p[2];
+        if (pipe(p) != 0)
+            return;
+        pid_t pid = fork();
+        if (pid == 0) {
+            close(p[0]);
+            signal(SIGALRM, SIG_DFL);
+            g_on_ceiling = [] { _exit(9); };
+            g_on_exit_in_call = nullptr;
+            UTAP::tracker.position = (uint32_t)T;
+            for (auto& op : probes) {
+                Session s;
+                alarm((unsigned)ctx.watchdog_s);
+                CallResult r = run_call(s, op.call, 0);
+                alarm(0);
+                write_blob(p[1], record_of(s, op.call, r));
+            }
+            _exit(0);
+        }
+        close(p[1]);
+        std::string buf;
+        char b[65536];
+        for (;;) {
+            ssize_t n = ::read(p[0], b, sizeof b);
+            if (n > 0)
+                buf.append(b, (size_t)n);
+            else if (n == 0 || errno != EINTR)
+                break;
+        }
+        close(p[0]);
+        int st = 0;
+        waitpid(pid, &st, 0);
+        size_t off = 0;
+        while (off + 4 <= buf.size()) {
+            uint32_t n;
+            memcpy(&n, buf.data() + off, 4);
+            if (off + 4 + n > buf.size())
+                break;
+            twin.push_back(buf.substr(off + 4, n));
+            off += 4 + n;
+        }
+    }
+    // really get there: each whitespace-only block costs 1 (setPath) + its length
+    int step = 1;
+    const size_t chunk = 32u << 20;
+    std::string ws(chunk, ' ');
+    while (clock_now() < T) {
+        uint64_t need = T - clock_now();
+        size_t len = need > chunk + 1 ? chunk : (size_t)(need - 1);
+        CallSpec c;
+        c.entry = E_PART;
+        c.part = UTAP::S_DECLARATION;
+        c.backend = B_PRETTY;
+        c.bytes = len == chunk ? ws : std::string(len, rng.chance(0.5) ? ' ' : '\t');
+        Session s;
+        ctx.hint = "clockreal:whitespace";
+        ctx.watchdog_s = 120;
+        const uint32_t before = clock_now();
+        ctx.call(s, c, step, false);
+        if (ctx.violations)
+            return;
+        ctx.count("clock-parsed-bytes", clock_now() - before);
+        if (clock_now() <= before) {
+            ctx.violation("HARNESS", "clock-stub", "clock-does-not-advance", "parsing whitespace did not advance the position clock");
+            return;
+        }
+    }
+    if (clock_now() != T) {
+        ctx.violation("HARNESS", "clock-stub", "clock-overshoot", "real parsing reached " + std::to_string(clock_now()) + " instead of " + std::to_string(T));
+        return;
+    }
+    ctx.count("clockreal-targets-reached-by-real-parsing");
+    if (T > (1ull << 31) - 4000)
+        ctx.count("clockreal-targets-at-2^31");
+    ctx.sample("clockreal: reached position " + std::to_string(T) + " by really parsing whitespace, then " + std::to_string(nprobes) + " probes vs a twin that jumped there");
+    ctx.c06_applicable = false;
+    for (size_t i = 0; i < probes.size(); ++i) {
+        Session s;
+        ctx.hint = "clockreal-probe:" + probes[i].what;
+        CallResult r = ctx.call(s, probes[i].call, ++step);
+        if (ctx.violations)
+            return;
+        std::string rec = record_of(s, probes[i].call, r);
+        ctx.event(std::to_string(fnv1a(rec)));
+        ctx.count("clockreal-probes-compared");
+        ctx.count("calls-compared");
+        if (i < twin.size() && rec != twin[i]) {
+            ctx.violation("HARNESS", "clock-stub", "jumped-twin-differs",
+                          "at position " + std::to_string(T) + " the call " + probes[i].call.str() + " differs between real parsing and a clock jump: " + first_diff(twin[i], rec));
+            return;
+        }
+    }
+}
+
 void profile_history(RunCtx& ctx)
 {
+    if (ctx.family == "clockreal") {
+        profile_history_clockreal(ctx);
+        return;
+    }
     if (ctx.family == "sweep") {
         profile_history_sweep(ctx);
         return;
